@@ -91,7 +91,11 @@ def gen_operand(rng, lead, n, with_deriv, float_vals):
         mask = [rng.random() < 0.35 for _ in range(cnt)]
         if not shape:
             mask = mask[0]
-    return {'shape': list(shape), 'vals': vals, 'mask': mask, 'deriv': bool(with_deriv), 'float': bool(float_vals)}
+    d = {'shape': list(shape), 'vals': vals, 'mask': mask, 'deriv': bool(with_deriv), 'float': bool(float_vals)}
+    if with_deriv and shape and rng.random() < 0.5:
+        # the derivative is masked at elements where its parent is not (as d sqrt(u)/dt at u = 0): seeded change C17-D
+        d['dmask'] = [rng.random() < 0.3 for _ in range(cnt)]
+    return d
 
 
 def build(d, Pm):
@@ -106,7 +110,10 @@ def build(d, Pm):
     x = Pm.Scalar(v, m)
     if d['deriv']:
         dv = (np.array(d['vals'], dtype=float).reshape(shape) * 0.5 + 1.) if shape else 1.5
-        x.insert_deriv('t', Pm.Scalar(dv))
+        dm = False
+        if d.get('dmask') and shape:
+            dm = np.array(d['dmask'], bool).reshape(shape) | np.broadcast_to(np.asarray(m), shape)
+        x.insert_deriv('t', Pm.Scalar(dv, dm))
     return x
 
 
